@@ -55,6 +55,11 @@ class BaseInterval(ABC):
         """
         vmin, vmax = self.get_limits(values)
 
+        # integer data is converted before the subtraction: with Python-number limits the
+        # difference would otherwise be taken in the (possibly narrow) integer dtype and wrap
+        if np.issubdtype(getattr(values, "dtype", np.dtype(float)), np.integer):
+            values = values.astype(np.float64)
+
         # subtract vmin
         values = np.subtract(values, vmin)
         if np.issubdtype(values.dtype, np.integer):
